@@ -189,7 +189,12 @@ class CircularRecord(SeqRecord):
             loc = feature.location
             if loc is None:
                 newloc = None
-            elif feature.type == "source" and loc.start == 0 and loc.end == len(self):
+            elif (
+                feature.type == "source"
+                and loc.start == 0
+                and loc.end == len(self)
+                and len(loc) == len(self)
+            ):
                 newloc = loc
             else:
                 _newloc = []
